@@ -102,6 +102,15 @@ Proof.
   rewrite IH. reflexivity.
 Qed.
 
+(* a reference cycle through three flows: 1 -> 2 -> 3 -> 1 *)
+Definition wc_config : config :=
+  CF [FC 1 true [PD 1 false 1 [1]] [CN ep_stream_start (ep_p 1 0); CN (ep_p 1 1) (ep_flow_start 2)]
+         [CN ep_stream_start ep_stream_end];
+      FC 2 true [PD 2 false 1 [1]] [CN ep_stream_start (ep_p 2 0); CN (ep_p 2 1) (ep_flow_start 3)]
+         [CN ep_stream_start ep_stream_end];
+      FC 3 true [PD 3 false 1 [1]] [CN ep_stream_start (ep_p 3 0); CN (ep_p 3 1) (ep_flow_start 1)]
+         [CN ep_stream_start ep_stream_end]] false.
+
 (* ---- a good configuration: fan-out, hand-over with two response connections,
         a second flow incorporated on the response side ----------------------
 
@@ -126,3 +135,25 @@ Definition wg_flows : list flow :=
 Definition wg_flow1 : flow := hd wa_flow wg_flows.
 Definition wg_sel : selection :=
   {| s_start := []; s_user := flows_named wg_flows [1]; s_end := [] |}.
+
+Lemma refers_p2f : forall k c n, refers (CN (ep_p k c) (ep_flow_start n)) n.
+Proof.
+  intros. left. unfold refers_to. cbn. split; [eexists; reflexivity|]. repeat split.
+Qed.
+
+Definition wc_flow (i k n : Z) : flowcfg :=
+  FC i true [PD k false 1 [1]] [CN ep_stream_start (ep_p k 0); CN (ep_p k 1) (ep_flow_start n)]
+     [CN ep_stream_start ep_stream_end].
+
+Lemma wc_ref_path : ref_path wc_config Req 1 1.
+Proof.
+  apply (rp_step wc_config Req 1 2 1 (wc_flow 1 1 2) [CN ep_stream_start (ep_p 1 0)]
+                 (CN (ep_p 1 1) (ep_flow_start 2)) []);
+    [reflexivity|reflexivity|apply refers_p2f|].
+  apply (rp_step wc_config Req 2 3 1 (wc_flow 2 2 3) [CN ep_stream_start (ep_p 2 0)]
+                 (CN (ep_p 2 1) (ep_flow_start 3)) []);
+    [reflexivity|reflexivity|apply refers_p2f|].
+  apply (rp_last wc_config Req 3 1 (wc_flow 3 3 1) [CN ep_stream_start (ep_p 3 0)]
+                 (CN (ep_p 3 1) (ep_flow_start 1)) []);
+    [reflexivity|reflexivity|apply refers_p2f].
+Qed.
